@@ -235,10 +235,15 @@ def violations_of(kind: str, version: int, rec: dict, path: Path, how: str = "pl
     errs = cl.store(kind, path, [("k", obj)])
     if errs:
         return [("C01:object-cannot-be-stored", f"storing raised {type(errs['k']).__name__}: {errs['k']}")]
-    back = cl.load(kind, path, ["k"])["k"]
+    firsts, backs = cl.load_twice(kind, path, ["k"])
+    back = backs["k"]
     if isinstance(back, Exception):
         return [(unreadable_kind(inp, version), f"cannot be read back: {type(back).__name__}: {back}")]
-    return [("C01:" + k, w) for k, w in cl.compare(inp, cl.snapshot(back))]
+    d1 = cl.compare(inp, firsts["k"]) if isinstance(firsts["k"], dict) else []
+    d2 = cl.compare(inp, cl.snapshot(back))
+    if [d for d in d2 if d[0] != "list-read-back-as-tuple"] and not [d for d in d1 if d[0] != "list-read-back-as-tuple"]:
+        return [("C01:read-returns-caller-edited-object", f"the read after a caller-side edit of the first result: {d2[0][1]}")]
+    return [("C01:" + k, w) for k, w in d2]
 
 
 def _candidates(rec: dict):
@@ -401,11 +406,26 @@ def run_batch(ctx, tag: str, kind: str, version: int, recs: list, probe: dict, r
     import msgpack
     rawb = cl.raw_bytes(path, keys)
     raws = {k: msgpack.loads(b, use_list=False, strict_map_key=False) for k, b in rawb.items()}
-    backs = cl.load(kind, path, keys)
+    # every key is read, the object is edited in place by the caller, and the key is read again (the last key once more in a
+    # second reading session): `backs` are the LATEST reads, `firsts` the snapshots of the first ones
+    firsts, backs = cl.load_twice(kind, path, keys)
     sch = probe["orders"][(kind, version)]["ser"]
     stoks = schema_tokens(sch, (probe["atom_dflt"], probe["bond_dflt"]))
     for k in keys:
         rec, inp, replay = inputs[k]
+        first = firsts.get(k)
+        if isinstance(first, dict) and not isinstance(backs.get(k), Exception):
+            ctx.count("re-read-after-caller-edit")
+            d1 = [d for d in cl.compare(inp, first) if d[0] != "list-read-back-as-tuple"]
+            d2 = [d for d in cl.compare(inp, cl.snapshot(backs[k])) if d[0] != "list-read-back-as-tuple"]
+            if d2 and not d1:
+                # the first read gave what is stored, the read after the caller's edit did not
+                report(ctx, "C01:read-returns-caller-edited-object",
+                       f"{kind} v{version}: first read of the key is what was stored; after the caller edited that object in place the "
+                       f"next read of the same key gives: {d2[0][1]}", kind, version, inp, replay)
+                requests.append((" ".join([kind] + schema_tokens(sch, (probe["atom_dflt"], probe["bond_dflt"])) + cl.record_tokens(inp)),
+                                 None, cl.canon_nan(cl.record_tokens(cl.snapshot(backs[k]))), replay, None))
+                continue
         if count:
             ctx.case(replay["record"] + f"|{kind}{version}|{replay['how']}", nontrivial=nontrivial(inp))
             ctx.count(f"built:{replay['how']}")
@@ -468,6 +488,19 @@ def shape_alternating(n: int) -> list:
             ("r", [("keys", -1)] + [("get", i) for i in range(n)])]
 
 
+def shape_reread(n: int) -> list:
+    """every read is followed by an in-place edit of the object it returned and by another read of the SAME key (no other key
+    in between): in the writing session, in the next reading session, and again in a third session"""
+    w = [("put", 0), ("put", 1), ("get", 0), ("edit", 0), ("get", 0), ("edit", 0), ("get", 0)]
+    for i in range(2, n):
+        w += [("put", i), ("get", i), ("edit", i), ("get", i)]
+    r1 = [("get", n - 1), ("edit", n - 1), ("get", n - 1)]          # the key read last in the previous session, edited there
+    for i in range(n):
+        r1 += [("get", i), ("edit", i), ("get", i)]
+    r2 = [("get", n - 1)] + [x for i in range(n) for x in (("get", i), ("get", i), ("edit", i), ("get", i))]
+    return [("w", w), ("r", r1), ("r", r2)]
+
+
 def shape_random(rng, n: int) -> list:
     """random sessions; a record is only read once it has been stored"""
     script, stored, todo = [], [], list(range(n))
@@ -480,7 +513,13 @@ def shape_random(rng, n: int) -> list:
                 ops.append(("put", i))
                 stored.append(i)
             elif stored:
-                ops.append(("keys", -1) if rng.chance(1, 8) else ("get", rng.choice(stored)))
+                if rng.chance(1, 8):
+                    ops.append(("keys", -1))
+                else:
+                    i = rng.choice(stored)
+                    ops.append(("get", i))
+                    if rng.chance(1, 3):          # the caller edits what it got and asks again
+                        ops += [("edit", i), ("get", i)]
         if ops:
             script.append((mode, ops))
     script.append(("r", [("keys", -1)] + [("get", i) for i in range(n)]))
@@ -501,6 +540,8 @@ def script_from_text(lines: list) -> list:
                 ops.append(("put", int(t[3:])))
             elif t.startswith("get"):
                 ops.append(("get", int(t[3:])))
+            elif t.startswith("edit"):
+                ops.append(("edit", int(t[4:])))
             elif t:
                 ops.append(("keys", -1))
         out.append((mode, ops))
@@ -523,7 +564,8 @@ def run_script_case(ctx, tag: str, kind: str, version: int, recs: list, script: 
         return
     interleaved = any(mode == "w" and any(op == "get" and any(o2 == "put" for o2, _ in ops[k:]) for k, (op, _) in enumerate(ops))
                       for mode, ops in script)
-    ctx.case(json.dumps(replay, sort_keys=True), nontrivial=interleaved)
+    rereads = any(op == "edit" for _, ops in script for op, _ in ops)
+    ctx.case(json.dumps(replay, sort_keys=True), nontrivial=interleaved or rereads)
     ctx.count(f"session-shape:{shape}")
     ctx.count(f"session-bufsize:{bufsize}")
     ctx.count(f"encoding=v{version}")
@@ -532,6 +574,7 @@ def run_script_case(ctx, tag: str, kind: str, version: int, recs: list, script: 
     stoks = schema_tokens(sch, (probe["atom_dflt"], probe["bond_dflt"]))
     lines = [" ".join([kind] + stoks + cl.record_tokens(inp)) for inp in inps]
     stored = set()
+    edited = set()
     seen = set()
     real_violation = ctx.violation
 
@@ -550,9 +593,12 @@ def run_script_case(ctx, tag: str, kind: str, version: int, recs: list, script: 
                               f"{type(res).__name__}: {res}", replay)
             requests.append((lines[i], wire_t, None, replay, rawb))
             return
-        bs = cl.snapshot(res)
+        bs = res if isinstance(res, dict) else cl.snapshot(res)
         for suffix, what in cl.compare(inps[i], bs):
             kv = "C01:" + suffix
+            if suffix != "list-read-back-as-tuple" and i in edited:
+                kv = "C01:read-returns-caller-edited-object"
+                what = f"after the caller edited the object an earlier read of this key returned: {what}"
             if kv not in seen:
                 violation(kv, f"{kind} v{version} bufsize={bufsize} shape={shape}: k{i} read {where}: {what}", replay)
         requests.append((lines[i], wire_t, cl.canon_nan(cl.record_tokens(bs)), replay, rawb))
@@ -567,6 +613,8 @@ def run_script_case(ctx, tag: str, kind: str, version: int, recs: list, script: 
         elif op == "get":
             if i in stored:     # a record whose store failed is reported there, not as unreadable
                 one(where, i, res)
+        elif op == "edit":
+            edited.add(i)
         elif op == "keys":
             want = sorted(f"k{j}" for j in stored)
             if isinstance(res, Exception) or res != want:
@@ -734,7 +782,7 @@ def session_shapes(ctx, probe: dict, requests: list, ev: dict):
     for kind in ("mol", "ens"):
         for version in (2, 1):
             for bufsize in BUFSIZES:
-                for shape, mk in (("interleaved", shape_interleaved), ("alternating", shape_alternating)):
+                for shape, mk in (("interleaved", shape_interleaved), ("alternating", shape_alternating), ("reread", shape_reread)):
                     m = ctx.rng.range(3, 6)
                     recs = [gen_record(ctx.rng, kind, version, True, ev) for _ in range(m)]
                     run_script_case(ctx, f"sess{n}", kind, version, recs, mk(m), bufsize, shape, probe, requests)
@@ -878,7 +926,9 @@ def run(ctx):
                 "read all; (c) alternating - writing()/reading()/writing()/reading() on one long-lived object, the second writing "
                 "session reads earlier records between its stores; (d) random scripts of sessions and put/get/keys steps; "
                 "(b)-(d) for both classes, both encodings and bufsize in {-1, 0, 64, 10^6}, always followed by a fresh object "
-                "reading every key and by the byte comparison of the stored values; (e) two library objects on one path: a "
+                "reading every key and by the byte comparison of the stored values; every read is a double read (read, edit the returned object in place, read the same key again on the same library "
+                "object; the last key once more in a second reading session) and scripts contain get-edit-get steps; "
+                "(e) two library objects on one path: a "
                 "long-lived object stores and reads, another object re-creates the file (overwrite=True) under the same keys or "
                 "appends, the long-lived object reads again. Stored objects are built plainly or (half of the stream, all "
                 "variants on the probes) from shared / re-parented Atom objects: reparented, shallow copy (source alive / "
@@ -1023,7 +1073,7 @@ def replay(ctx, path):
         bad = 0
         for si, oi, op, i, res in cl.run_script(kind, ctx.scratch / "replay.lib", version, objs, script, int(r["bufsize"])):
             if op == "get" and not isinstance(res, Exception):
-                d = [x for x in cl.compare(inps[i], cl.snapshot(res)) if x[0] != "list-read-back-as-tuple"]
+                d = [x for x in cl.compare(inps[i], res if isinstance(res, dict) else cl.snapshot(res)) if x[0] != "list-read-back-as-tuple"]
                 res = "exact" if not d else d
                 bad += bool(d)
             elif isinstance(res, Exception):
@@ -1051,10 +1101,14 @@ def replay(ctx, path):
         print("storing raised:", errs)
         return 1
     print("stored tuple:", cl.raw_values(p, ["k"])["k"])
-    back = cl.load(kind, p, ["k"])["k"]
+    firsts, backs = cl.load_twice(kind, p, ["k"])
+    back = backs["k"]
     if isinstance(back, Exception):
         print(f"reading back raised {type(back).__name__}: {back}")
         return 1
+    if isinstance(firsts["k"], dict):
+        print("first read:", [d for d in cl.compare(inp, firsts["k"])] or "exact")
+        print("(the caller edits that object in place and reads the key again; below: the latest read)")
     diffs = cl.compare(inp, cl.snapshot(back))
     for d in diffs:
         print("difference:", d)
